@@ -51,8 +51,8 @@ WITNESS = {
 PROP_UNITS = {
     'C01': {'verus': ['int_prim', 'int_add'], 'kani': ['int_math', 'int_add_w'],
             'undecided': ['Memory scratch allocator sizing (opaque stubs)',
-                          'Karatsuba / Toom-3 / sqr / mul_dword_in_place bodies: seen by the dispatch units only through '
-                          'assumed contracts (exact product)']},
+                          'Karatsuba / Toom-3 / sqr / mul_dword_in_place are proved (units int_mul_karatsuba, int_mul_toom3, '
+                          'int_sqr, int_mul_dword, int_mul_dispatch); the dispatch units use their contracts via //@@ SIG']},
     'C13': {'verus': ['int_modadd'],
             'undecided': ['single/double-word residues (num_modular reducers, dependency)',
                           'negate_in_place / dbl_in_place (Iterator::all, shift kernel)', 'mul, pow, inv, conversions',
